@@ -599,6 +599,9 @@ func cmdReplay(args []string) int {
 		fmt.Fprintln(os.Stderr, "usage: vcheck replay <path>")
 		return 2
 	}
+	if abs, err := filepath.Abs(args[0]); err == nil {
+		args[0] = abs
+	}
 	b, err := os.ReadFile(args[0])
 	if err != nil {
 		fmt.Fprintln(os.Stderr, err)
